@@ -34,7 +34,9 @@ EXPLANATION = ("Theorems over all histories (LccModel.C19.*) proved in Lean; the
                "leave their directory empty, failing runs, explicit directories) over a run-level model that is simulated onto the first one; "
                "it is tied to cli/commands/run.py and project.py by driving sequences of real runs (cli.main, run_suites_from_project with "
                "re-used Project / cli_args objects, subprocesses) on a real project directory, directories identified by inode, and by decision "
-               "tables of the glue (Generated/C19TablesCheck.lean).")
+               "tables of the glue (Generated/C19TablesCheck.lean). Whatever a report directory holds (files of any name incl. *.tmp, nested "
+               "directories, links, empty directories) is an input of both streams and is compared byte for byte at any depth across every "
+               "operation; the corresponding theorems are over trees (LccModel.C19Runs, Props/C19Tree.lean).")
 
 
 def _listing(top):
